@@ -241,9 +241,10 @@ def rt_conform(J, gname, cls, restored, with_key):
             ent = Entropy("ent", max_calls=1)
             a = new_instance(cls, w.params, pw, idA, idB, ent)
             msg = SymBytes.of(a.start())
+            x_code = a.xy_scalar
             if restored:
                 a = restore(cls, a, w.params)
-            d = dict(a=a, msg=msg, pw=pw, idA=idA, idB=idB, ent=ent, w=w)
+            d = dict(a=a, msg=msg, pw=pw, idA=idA, idB=idB, ent=ent, w=w, x_code=x_code)
             ctx.data["w"] = d
             if with_key:
                 # the peer's message: an arbitrary accepted element, here the blinded element of an honest peer scalar
@@ -274,6 +275,14 @@ def rt_conform(J, gname, cls, restored, with_key):
             continue
         wref = SymBytes.of(hk[0]["out"]).value() % w.q
         xref = w.scalar_ref(w, d["ent"])
+        if gname != "Ed25519":
+            # lemma (linear arithmetic, decided on its own): the scalar the code drew is the published function of the entropy
+            # bytes.  The protocol-level obligations below then use the code's own term for it, so that they do not depend
+            # on how the sampling arithmetic happens to be written (mask on the top byte vs. mask on the integer)
+            xcode = T(d["x_code"])
+            J.claim(r, "real %s: the secret scalar is the published function of the entropy bytes" % gname, xcode == xref,
+                    cex=cex, oracle="rt_conform")
+            xref = xcode
         blind = {"A": "M", "B": "N", "S": "S"}[cls]
         ref = SymBytes([SIDE_BYTE[cls]]) + w.enc(xref + wref * w.blind_log(blind))
         J.claim(r, "real %s: start() message = side || enc(x*G + w*%s) with x, w by the published derivations" % (gname, blind),
@@ -284,6 +293,11 @@ def rt_conform(J, gname, cls, restored, with_key):
             pblind = {"A": "N", "B": "M", "S": "S"}[cls]         # the peer's blinding element = my unblinding element
             if yref is None:
                 continue
+            if gname != "Ed25519":
+                ycode = T(d["peer"].xy_scalar)
+                J.claim(r, "real %s: the peer's secret scalar is the published function of its entropy bytes" % gname, ycode == yref,
+                        cex=cex, oracle="rt_conform")
+                yref = ycode
             peer_log = yref + wref * w.blind_log(pblind)
             K = w.enc((peer_log - wref * w.blind_log(pblind)) * xref)
             H = env.sha_term
